@@ -61,6 +61,25 @@ partial def parseLExp (j : Json) : Except String LExp := do
     | o => throw s!"unknown LExp op {o}"
   | _ => throw "LExp expected"
 
+/-- translator target (phase 5): ["theta"]|["ainv"]|["feats"]|["alpha"]|["var",i]|["fn1",a]|["amax",a]|[op,a,b] -/
+partial def parsePExp (j : Json) : Except String PExp := do
+  match j with
+  | .arr #[.str "theta"] => pure .theta
+  | .arr #[.str "ainv"] => pure .ainv
+  | .arr #[.str "feats"] => pure .feats
+  | .arr #[.str "alpha"] => pure .alpha
+  | .arr #[.str "var", i] => pure (.var (← nat i))
+  | .arr #[.str "fn1", a] => pure (.fn1 (← parsePExp a))
+  | .arr #[.str "amax", a] => pure (.amax (← parsePExp a))
+  | .arr #[.str op, a, b] =>
+    let x ← parsePExp a
+    let y ← parsePExp b
+    match op with
+    | "matmul" => pure (.matmul x y) | "einsumCols" => pure (.einsumCols x y)
+    | "add" => pure (.add x y) | "mul" => pure (.mul x y)
+    | o => throw s!"unknown PExp op {o}"
+  | _ => throw "PExp expected"
+
 def parseLStmt (j : Json) : Except String LStmt := do
   match j with
   | .arr #[.str "assign", i, e] => pure (.assign (← nat i) (← parseLExp e))
@@ -148,6 +167,32 @@ def handle (req : Json) : Except String Json := do
     match linRunProg prog (LinState.init d) events with
     | some st => pure (obj [("ok", Json.bool true), ("theta", ofList ratToJson st.theta), ("ainv", ofList (ofList ratToJson) st.ainv)])
     | none => pure (obj [("ok", Json.bool false)])
+  | .ok (.str "pmfprog") =>
+    -- phase 5: {"op":"pmfprog","kind":"linucb"|"lints","d":d,"events":[…],"alpha":rat,"table":[[x,gx]…],"prog":[pexp…],"lhs":pexp,"top":pexp}
+    -- → every prediction of the history by the `_pmf` PROGRAM read off the source (`runPredict`) and by the model (`pmf`/`pmfTS`)
+    let d ← nat (← field req "d")
+    let kind ← str (← field req "kind")
+    let alpha ← ratOfJson (← field req "alpha")
+    let tab ← (← arr (← field req "table")).mapM (fun j => do
+      match j with
+      | .arr #[x, y] => pure (← ratOfJson x, ← ratOfJson y)
+      | _ => throw "pair expected")
+    let prog ← (← arr (← field req "prog")).mapM parsePExp
+    let lhs ← parsePExp (← field req "lhs")
+    let top ← parsePExp (← field req "top")
+    let events ← (← arr (← field req "events")).mapM (fun j => do
+      match j.getObjVal? "learn" with
+      | .ok l => pure (LinEvent.learn (← ratList (← field l "f")) (← ratOfJson (← field l "reward")))
+      | .error _ => do
+        let pr ← field j "predict"
+        pure (LinEvent.predict (← (← arr (← field pr "fs")).mapM ratList)))
+    let g := tableFn tab
+    let byProg := linRunPredict (fun s fs => runPredict g prog lhs top s fs alpha) (LinState.init d) events
+    let byModel := linRunPredict (fun s fs => some (if kind == "linucb" then s.pmf g alpha fs else s.pmfTS g fs)) (LinState.init d) events
+    let optJ := fun (o : Option (List Rat)) => match o with
+      | some l => ofList ratToJson l
+      | none => Json.null
+    pure (obj [("prog", ofList optJ byProg), ("model", ofList optJ byModel)])
   | .ok (.str "fl53") =>
     -- {"op":"fl53","chain":[[num,den],…]} → {"prods":[rat,…]}: prods[0] = fl53 x₀, prods[i] = fmul53 prods[i-1] xᵢ
     let xs ← ratList (← field req "chain")
@@ -161,15 +206,21 @@ def handle (req : Json) : Except String Json := do
       match p with
       | .arr #[c, v] => pure (← parseChar c, ← parseNsVal v)
       | _ => throw "pair expected")
-    pure (obj [("model", outToJson (encode Cfg.fixed is kw)),
+    -- phase 5: with "f53": true also the encoder computed with the IEEE rounding multiplication `fmul53`
+    let extra := match req.getObjVal? "f53" with
+      | .ok (.bool true) => [("model53", outToJson (encodeG fmul53 Cfg.fixed is kw))]
+      | _ => []
+    pure (obj (extra ++ [("model", outToJson (encode Cfg.fixed is kw)),
                ("current", outToJson (encode Cfg.current is kw)),
                ("variants", ofList (fun (c : Cfg) => Json.arr #[Json.bool c.fixPows, Json.bool c.fixZip, Json.bool c.fixAbsent,
                                        outToJson (encode c is kw)]) allCfgs),
                ("spec", outToJson (.ok (encodeS is kw))),
                ("len", ofNat (encodeLen is kw)),
                ("collides", Json.bool (collides is kw)),
+               ("callL", ofNat (callL is kw)),
+               ("eqlen", Json.bool (equalLenOK (callL is kw) is kw)),
                ("nmonos", ofNat (sparseMonos is kw).length),
                ("maxdeg", ofNat ((strTerms is).foldl (fun m t => max m t.length) 0)),
-               ("hyp", Json.bool ((strTerms is).all (fun t => !t.isEmpty)))])
+               ("hyp", Json.bool ((strTerms is).all (fun t => !t.isEmpty)))]))
 
 end Coba.C20.Driver
